@@ -704,7 +704,7 @@ satisfies both invariants, told the locations `(sd.nd n).getLoc`, with `Avail` o
 def StartSem (g : Graph) (H0 : List Nat) (store0 : List (String × List (String × String))) (w : Nat) (e : Event) : Prop :=
   ∀ wid cname uid locs k, e = .start wid cname uid locs k →
     ∃ n sd hid, cname = clsName g n .plain ∧ locs = (sd.nd n).getLoc ∧ n < g.nodes.length ∧ g.idIn w n = true ∧
-      (∀ h ∈ sd.hidden, h ∈ hid) ∧ (∀ h ∈ hid, h ∈ H0) ∧ Trv g H0 sd ∧ Sem g store0 sd ∧ Avail g (visH g hid) sd w n
+      (g.node n).flat = false ∧ (∀ h ∈ sd.hidden, h ∈ hid) ∧ (∀ h ∈ hid, h ∈ H0) ∧ Trv g H0 sd ∧ Sem g store0 sd ∧ Avail g (visH g hid) sd w n
 
 theorem StartSem.of_plain {g : Graph} {H0 : List Nat} {store0 : List (String × List (String × String))} {w : Nat} {e : Event}
     (h : Plain e) : StartSem g H0 store0 w e :=
@@ -789,7 +789,7 @@ theorem traverseNode_sem (g : Graph) (H0 hid0 : List Nat) (ctx : Ctx g H0 hid0)
         intro wid cname uid' locs k' hev
         rw [hek] at hev
         cases hev
-        refine ⟨next, s1, hid0, clsName_sameNodes hsn next .plain, rfl, hn, hid', fun h hh => hsub h (h1.hidden h hh),
+        refine ⟨next, s1, hid0, clsName_sameNodes hsn next .plain, rfl, hn, hid', hflat', fun h hh => hsub h (h1.hidden h hh),
           ctx.sub0, t.upd sc.hO.uniq h1, j1, ?_⟩
         -- availability
         intro e hemem hfp hrelp vs hvs hvm
@@ -1313,5 +1313,49 @@ theorem runSched_reachS (g : Graph) (ncls : Nat) (store : List (String × List (
   | nil => exact h
   | cons p l ih =>
     exact ih (fun q hq => hl q (List.mem_cons_of_mem _ hq)) _ (ReachS.step s p.1 p.2 fuel h (hl p List.mem_cons_self) hf)
+
+/-- may worker `w`, running its copy `n`, fetch from the pool of worker `v` under the node's pool scope -/
+def mayUse (g : Graph) (n w v : Nat) : Bool :=
+  if v == w then (g.node n).scope.contains "own"
+  else if (g.worker v).swarm == (g.worker w).swarm then (g.node n).scope.contains "swarm"
+  else (g.node n).scope.contains "cluster"
+
+theorem mayUse_full {g : Graph} (h : FullScope g) {n : Nat} (hn : n < g.nodes.length) (hf : (g.node n).flat = false)
+    (w v : Nat) : mayUse g n w v = true := by
+  obtain ⟨_, h1, _, h3, h4⟩ := h n hn hf
+  unfold mayUse
+  split
+  · exact h1
+  · split
+    · exact h3
+    · exact h4
+
+/-! ## instances for `Props/C01.lean`: test `a` sets `vm1/a` (copies for both workers), test `b` of net2 gets it -/
+
+def exStGraph (scope : List String) : Graph :=
+  { workers := [{ id := "net1", swarm := "localhost" }, { id := "net2", swarm := "localhost" }],
+    nodes := [
+      { cls := 0, owner := some 0, name := "all.a.vms.vm1.nets.localhost.net1", pfx := "1a1", objs := ["vm1"],
+        sets := [("vm1", "a")], scope := scope, setup := [(3, ["vm1"])] },
+      { cls := 0, owner := some 1, name := "all.a.vms.vm1.nets.localhost.net2", pfx := "1a1", objs := ["vm1"],
+        sets := [("vm1", "a")], scope := scope, setup := [(3, ["vm1"])], cleanup := [(2, ["vm1"])] },
+      { cls := 1, owner := some 1, name := "all.b.vms.vm1.nets.localhost.net2", pfx := "2a1", objs := ["vm1"],
+        gets := [("vm1", "a")], scope := scope, setup := [(1, ["vm1"])] },
+      { cls := 2, owner := none, name := "all.internal.stateless.noop", pfx := "1", flat := true, sharedRoot := true,
+        cleanup := [(0, ["vm1"]), (1, ["vm1"])] }],
+    root := 3 }
+
+/-- all four scopes enabled -/
+def exSt : Graph := exStGraph ["own", "swarm", "cluster", "shared"]
+/-- the `swarm` scope disabled (finding F10) -/
+def exSt10 : Graph := exStGraph ["own", "shared"]
+/-- the state exists initially, in net1's own pool only (finding F5) -/
+def exStore5 : List (String × List (String × String)) := [("net1", [("vm1", "a")])]
+
+/-- net1 ran `a` and passed -/
+def exSt2 : State := runSched exSt 100 (initState exSt 3 [] []) [(0, exNoOut), (0, exPass)]
+def exSt10_2 : State := runSched exSt10 100 (initState exSt10 3 [] []) [(0, exNoOut), (0, exPass)]
+/-- net1 found the state in its own pool and skipped `a` -/
+def exSt5_1 : State := runSched exSt 100 (initState exSt 3 exStore5 []) [(0, exNoOut)]
 
 end I2N.Trav
